@@ -197,4 +197,94 @@ def assembleTrip (P : Pb) : Topo → List Trip
 def assembleRhs (P : Pb) (bv : Nat → Rat) (k : Nat) : Rat :=
   divAt P.T (fun f => neuDiag P f * bv f + dirDiag P f * (P.q f * bv f)) k
 
+/-! ### `UpwindCoupling`: upwinding of the interface (mortar) flux
+
+One interface between a primary (higher-dimensional) grid with topology `Th` and a secondary grid.
+Mortar cell `m` is matched with the primary face `pf m` and the secondary cell `sc m` (matching grids:
+the mortar projections of `pp.meshing.cart_grid` are 0/1 maps; they are inputs here, C26 is about them).
+
+  lam_flux = np.sign(flux);  flag = lam_flux > 0          (zero mortar flux counts as "from secondary")
+  upwind_primary = diag(flag);  upwind_secondary = diag(1 - flag);  flux = diag(lam_flux)
+  trace = |divergence|ᵀ  (face ← adjacent cells),  inv_trace = |divergence|
+  assemble:  cc[0,2] = inv_trace @ mortar_to_primary_int           (what leaves the primary cell …)
+             cc[1,2] = -mortar_to_secondary_int                    (… enters the secondary cell)
+             cc[2,0] = diag(|λ|) @ flux @ upwind_primary @ primary_to_mortar_avg @ trace
+             cc[2,1] = diag(|λ|) @ flux @ upwind_secondary @ secondary_to_mortar_avg
+             cc[2,2] = -identity
+-/
+
+def absR (x : Rat) : Rat := if x < 0 then -x else x
+
+/-- entry `[f, c]` of the trace operator `|divergence|ᵀ` -/
+def traceW (T : Topo) (f c : Nat) : Rat :=
+  sumOver T (fun i => if i.face = f ∧ i.cell = c then absR i.sgn else 0)
+
+/-- `(trace @ c)[f]`: the cell values seen from face `f` -/
+def traceVal (T : Topo) (c : Nat → Rat) (f : Nat) : Rat :=
+  sumOver T (fun i => if i.face = f then absR i.sgn * c i.cell else 0)
+
+structure Cp where
+  Th : Topo
+  pf : Nat → Nat
+  sc : Nat → Nat
+  lam : Nat → Rat
+
+/-- the dimension test of `UpwindCoupling.discretize` (else ValueError) -/
+def codimOk (dimPrimary dimSecondary : Int) : Bool :=
+  dimPrimary - dimSecondary == 1 || dimPrimary - dimSecondary == 2
+
+/-- `flag = np.sign(lam) > 0` -/
+def cplFlag (C : Cp) (m : Nat) : Bool := decide (0 < sgnR (C.lam m))
+
+/-- diagonals of `upwind_primary`, `upwind_secondary`, `flux` -/
+def upPrimDiag (C : Cp) (m : Nat) : Rat := if cplFlag C m then 1 else 0
+def upSecDiag (C : Cp) (m : Nat) : Rat := 1 - upPrimDiag C m
+def cplFluxDiag (C : Cp) (m : Nat) : Rat := (sgnR (C.lam m) : Int)
+
+/-- blocks of `assemble_matrix_rhs` as entry functions -/
+def cc02 (C : Cp) (c m : Nat) : Rat := traceW C.Th (C.pf m) c
+def cc12 (C : Cp) (l m : Nat) : Rat := if C.sc m = l then -1 else 0
+def cc20 (C : Cp) (m c : Nat) : Rat := absR (C.lam m) * cplFluxDiag C m * upPrimDiag C m * traceW C.Th (C.pf m) c
+def cc21 (C : Cp) (m l : Nat) : Rat := absR (C.lam m) * cplFluxDiag C m * upSecDiag C m * (if C.sc m = l then 1 else 0)
+
+/-- the advective mortar flux `η` determined by row 2 (`cc20 ch + cc21 cl − η = 0`):
+    mortar flux × (primary trace value if the flux is positive, else the secondary cell value) -/
+def eta (C : Cp) (ch cl : Nat → Rat) (m : Nat) : Rat :=
+  C.lam m * (if 0 < C.lam m then traceVal C.Th ch (C.pf m) else cl (C.sc m))
+
+/-- triplets of the blocks for the driver (unsummed) -/
+def cc02Trip (C : Cp) (nm : Nat) : List Trip :=
+  (List.range nm).flatMap (fun m => (C.Th.filter (fun i => i.face = C.pf m)).map (fun i => (i.cell, m, absR i.sgn)))
+def cc20Trip (C : Cp) (nm : Nat) : List Trip :=
+  (List.range nm).flatMap (fun m => (C.Th.filter (fun i => i.face = C.pf m)).map
+    (fun i => (m, i.cell, absR (C.lam m) * cplFluxDiag C m * upPrimDiag C m * absR i.sgn)))
+
+/-! ### mixed-dimensional explicit transport step
+
+A mixed-dimensional grid flattened to one global numbering: `P.T` is the disjoint union of the
+incidences of all subdomains (global face / cell indices; which subdomain an index belongs to plays no
+role), and every mortar cell of every interface is one entry `m < nm` with its primary face `pf m`
+(global), its secondary cell `sc m` (global) and its flux `lam m`.  The graph of subdomains and
+interfaces is encoded in `pf`/`sc`. -/
+
+structure Md where
+  P : Pb
+  nm : Nat
+  pf : Nat → Nat
+  sc : Nat → Nat
+  lam : Nat → Rat
+
+def Md.cp (M : Md) : Cp := ⟨M.P.T, M.pf, M.sc, M.lam⟩
+
+/-- net interface outflow of cell `k`: `Σ_m cc02[k,m] η_m + Σ_m cc12[k,m] η_m` -/
+def intfOut (M : Md) (c : Nat → Rat) (k : Nat) : Rat :=
+  sumTo M.nm (fun m => cc02 M.cp k m * eta M.cp c c m) + sumTo M.nm (fun m => cc12 M.cp k m * eta M.cp c c m)
+
+def mdStep (M : Md) (dt : Rat) (V bv c : Nat → Rat) (k : Nat) : Rat :=
+  c k - dt / V k * (divAt M.P.T (faceFlux M.P c bv) k + intfOut M c k)
+
+def mdIter (M : Md) (dt : Rat) (V bv : Nat → Rat) : Nat → (Nat → Rat) → (Nat → Rat)
+  | 0, c => c
+  | n + 1, c => mdIter M dt V bv n (mdStep M dt V bv c)
+
 end PorepyVerif.C17
